@@ -1,5 +1,6 @@
 import Hms
 import HmsGen.Enums
+import Hms.Core.BcCheck
 import Driver.Decode
 /-! Driver commands of the "Core" area. `dispatchCore cmd payload` answers `some line` for the
 commands it owns and `none` otherwise. -/
@@ -48,8 +49,25 @@ def cmdVmRun (payload : String) : String :=
     | _, _, _, _ => "BAD-INPUT"
   | _ => "BAD-INPUT"
 
+/-- `hcheck <modules sexp>` → `HCHECK-OK fns=<n>` | `HCHECK-REJECT x<hex report>`: the bytecode height
+checker on the code of the compiler model (whose instruction stream is compared verbatim with the
+real compiler's in C01). -/
+def cmdHcheck (payload : String) : String :=
+  match Sexp.parse payload with
+  | none => "BAD-INPUT"
+  | some sx =>
+    match Decode.program sx with
+    | .error e => s!"DECODE-ERROR {Sexp.hexOfString e}"
+    | .ok prog =>
+      match Core.Comp.compile prog with
+      | .error w => s!"UNSUPPORTED {Sexp.hexOfString w}"
+      | .ok c =>
+        if Core.BcCheck.hcheck c.fns then s!"HCHECK-OK fns={c.fns.length}"
+        else s!"HCHECK-REJECT {Sexp.hexOfString (toString (Core.BcCheck.hcheckReport c.fns))}"
+
 def dispatchCore (cmd : String) (payload : String) : Option String :=
   match cmd with
+  | "hcheck" => some (cmdHcheck payload)
   | "compile" => some (cmdCompile payload)
   | "vmrun" => some (cmdVmRun payload)
   | _ => none
